@@ -76,14 +76,16 @@ def build(combo, rng):
     for _idx in range(int(combo['age'])):
         blocks.append(dict(type=7, num=nums.pop(0), flags=0, crc_type=crc, data=cw.enc(rng.choice([0, 5, 1000, 2 ** 33])), crc=None))
     for idx in range(combo['unknown']):
-        blocks.append(dict(type=rng.choice([192, 200, 65535]), num=nums.pop(0), flags=rng.choice([0, 1, 0x10]), crc_type=crc,
+        blocks.append(dict(type=rng.choice([192, 200, 65535]), num=nums.pop(0), flags=rng.choice([0, 1, 0x10, 0x20, 0x81, 0x100]), crc_type=crc,
                            data=bytes(rng.getrandbits(8) for _ in range(rng.choice([0, 3, 30]))), crc=None))
     rng.shuffle(blocks)
     plen = rng.choice([0, 1, 23, 24, 300])
     blocks.append(dict(type=1, num=1, flags=0, crc_type=rng.choice([0, crc]), data=bytes((7 * i + 1) & 0xFF for i in range(plen)), crc=None))
     ctime = 0 if combo['ctime'] == 'zero' else NOW_DTN_MS - rng.choice([0, 1, 999, 86400000])
     dest = rng.choice(['dtn://next-a/svc', 'dtn://next-b/svc'])
-    flags = rng.choice([0, bpv7.FLAG_NO_FRAGMENT, bpv7.FLAG_REQ_FORWARDING, bpv7.FLAG_USER_APP_ACK | bpv7.FLAG_REQ_STATUS_TIME])
+    flags = rng.choice([0, bpv7.FLAG_NO_FRAGMENT, bpv7.FLAG_REQ_FORWARDING, bpv7.FLAG_USER_APP_ACK | bpv7.FLAG_REQ_STATUS_TIME,
+                        # bits RFC 9171 leaves unassigned must travel unchanged as well
+                        0x80, 0x100 | bpv7.FLAG_NO_FRAGMENT, 0x200000, 0x08 | bpv7.FLAG_REQ_FORWARDING])
     pri = dict(version=7, flags=flags, crc_type=rng.choice([0, crc]), dest=dest, src=rng.choice(['dtn://src/app', 'ipn:7.3', 'dtn:none']),
                report_to=rng.choice(['dtn:none', 'dtn://rep/r']), create_time=ctime, seqno=rng.choice([0, 1, 2 ** 32]),
                lifetime=combo['lifetime'], frag_offset=None, total_adu_len=None, crc=None)
